@@ -23,4 +23,10 @@ restate C01_vm_refines_sld_horn := vm_refines_sld_horn
     unresolved query term. -/
 restate C01_vm_refines_sld_horn_canon := vm_refines_sld_horn_canon
 
+/- **C01_vm_refines_sld_cut** (stage 2): the same for `CutFrag` = Horn clauses with `!` in clause
+    bodies and in the query (cut parents of the VM ↔ cut levels of the reference). -/
+restate C01_vm_refines_sld_cut := vm_refines_sld_cut
+
+restate C01_vm_refines_sld_cut_canon := vm_refines_sld_cut_canon
+
 end PrologVerif.C01
